@@ -50,6 +50,11 @@ CATALOG = {
     "n/q": {"files": {"q.go": (None, "package q\n\ntype Q1 interface{ M() }\n")}, "ifaces": {"q.go": ["Q1"]}},
     "n/q/r": {"files": {"r.go": (None, "package r\n\ntype QR1 interface{ M() }\n")}, "ifaces": {"r.go": ["QR1"]}},
     "n/z": {"files": {"z.go": (None, "package z\n\ntype Z1 interface{ M() }\n")}, "ifaces": {"z.go": ["Z1"]}},
+    # distinct packages with the SAME package name (and partly the same interface names)
+    "x/store": {"files": {"s.go": (None, "package store\n\ntype Store interface{ Get(k string) string }\n")}, "ifaces": {"s.go": ["Store"]}},
+    "y/store": {"files": {"s.go": (None, "package store\n\ntype Store interface{ Get(k string) string }\n\ntype Other interface{ M() }\n")}, "ifaces": {"s.go": ["Store", "Other"]}},
+    "v1/api": {"files": {"api.go": (None, "package api\n\ntype ApiA interface{ A() }\n")}, "ifaces": {"api.go": ["ApiA"]}},
+    "v2/api": {"files": {"api.go": (None, "package api\n\ntype ApiB interface{ B() }\n")}, "ifaces": {"api.go": ["ApiB"]}},
 }
 VALID_PKGS = ["a", "b", "c", "r", "r/s1", "r/s2", "d/e"]
 BUILTIN = {"testify": {"boilerplate-file": str, "mock-build-tags": str, "unroll-variadic": bool},
@@ -585,6 +590,11 @@ def resolve_links(world, S):
 
 
 def ref_of(res, q):
+    """reference content of the collection this request belongs to (scn["ref_name"]: the name that the
+    de-aliased valid base gives to an interface's file)"""
+    alt = res["scn"].get("ref_name", {}).get(q["iface"])
+    if alt is not None:
+        return res["ref_contents"].get(tuple(alt))
     return res["ref_contents"].get(tuple(q.get("namepath", q["path"])))
 
 
@@ -1458,6 +1468,24 @@ def inj_bad_regex_later_pkg(rng, scn):
     scn["tags"].append("level:later-package")
 
 
+def inj_conflict_same_name(rng, scn, same_iface=False):
+    """two DISTINCT source packages with the same package name (with or without a same-named
+    interface), same output file, same pkgname and template: the source package PATHS differ"""
+    # same_iface: only the interface that both packages declare under the same name is selected
+    pair = ("x/store", "y/store") if same_iface else rng.choice([("x/store", "y/store"), ("v1/api", "v2/api")])
+    how = "listed" if same_iface else rng.choice(["all", "listed"])
+    for name in pair:
+        if name not in scn["pkgs"]:
+            scn["pkgs"].append(name)
+        cfg = {"dir": "out/shared", "filename": "all_mocks.go", "pkgname": "shared"}
+        if how == "all":
+            scn["packages"][pkg_path(name)] = {"config": dict(cfg, all=True)}
+        else:
+            scn["packages"][pkg_path(name)] = {"config": cfg, "interfaces": {ifaces_of(pkg_path(name))[0]: None}}
+    scn["tags"].append("ConflictPackage")
+    scn["tags"].append("level:same-package-name-" + pair[0].split("/")[-1])
+
+
 def inj_conflict_pkg_third(rng, scn):
     """two mocks of package a, then one of package b, all for the same file"""
     for name in ("a", "b"):
@@ -1562,7 +1590,8 @@ INJECTIONS = {
     "BadTemplatedLater": later("pkgname", ["{{.Nope}}"], "BadTemplatedValue", entry=True),
     "ConflictPkgNameThird": later("pkgname", ["otherpkg"], "ConflictPkgName"),
     "ConflictTemplateThird": later("template", ["matryer"], "ConflictTemplate"),
-    "ConflictPackageThird": inj_conflict_pkg_third,
+    "ConflictPackageThird": inj_conflict_pkg_third, "ConflictPackageSameName": inj_conflict_same_name,
+    "ConflictPackageSameNameSameIface": lambda rng, scn: inj_conflict_same_name(rng, scn, True),
     "TemplateExecutionLater": later("template-data", [{"boom-read": True}, {"boom-index": True}], "TemplateExecution", trap=True),
     "InvalidGoOutputLater": later("template-data", [{"boom-syntax": True}], "InvalidGoOutput", trap=True, entry=True),
     "BadRegexLaterPkg": inj_bad_regex_later_pkg,
@@ -2076,6 +2105,44 @@ def run_fuzz(ctx, scns, start):
     return pmap(one, list(enumerate(scns)), workers=min(JOBS, 12))
 
 
+# ---------------- MOCKERY_<BOOL KEY>=value ----------------
+ENV_BOOL_KEYS = ["FORCE_FILE_WRITE", "ALL", "RECURSIVE", "REQUIRE_TEMPLATE_SCHEMA_EXISTS"]
+ENV_VALUES = ["true", "TRUE", "True", "tRuE", "false", "FALSE", "False", "FaLsE",
+              "fal\u017fe", "FAL\u017fE", "fAl\u017fe", "\u017f", "tr\u00fce", "TR\u00dcE", "\u212a", "tru\u0404", "\uff54\uff52\uff55\uff45", "\uff11",
+              " true", "true ", "TRUE\n", "\ttrue", "true\r", "true\u200b", "tru", "truee", "ttrue", "rue", "fals", "falsee",
+              "1", "0", "t", "T", "f", "F", "", "yes", "no", "on", "off", "y", "null", "truefalse", "true,false", "\"true\"", "'false'"]
+
+
+def gen_env_cases(rng, n_random):
+    vals = list(ENV_VALUES)
+    for _ in range(n_random):
+        w = rng.choice(["true", "false"])
+        r = rng.random()
+        if r < 0.5:                                   # a random letter case
+            vals.append("".join(c.upper() if rng.random() < 0.5 else c for c in w))
+        elif r < 0.75:                                # one letter replaced by a look-alike
+            i = rng.randrange(len(w))
+            vals.append(w[:i] + rng.choice(["\u017f", "\u0455", "\u0435", "\u0430", "\u1e6d", "\u0131", "\uff45", "3", "|"]) + w[i + 1:])
+        else:                                         # padding / truncation / doubling
+            vals.append(rng.choice([" " + w, w + " ", w + "\n", w[:-1], w + w[-1], w.upper() + "\t", "\ufeff" + w]))
+    return [(k, v) for v in vals for k in ([rng.choice(ENV_BOOL_KEYS)] if v not in ENV_VALUES[:16] else ENV_BOOL_KEYS)]
+
+
+def run_env(ctx, cases, start):
+    def one(t):
+        i, (key, val) = t
+        s = new_scn(["a"])
+        s["packages"][pkg_path("a")] = {"config": {"all": True}}
+        s["env"] = {"MOCKERY_" + key: val}
+        S = str(ctx.scratch / ("env%d" % (start + i)))
+        b = bind(s, S)
+        materialize(b, S)
+        r = run_mockery(ctx, b, S)
+        shutil.rmtree(S, ignore_errors=True)
+        return r
+    return pmap(one, list(enumerate(cases)), workers=min(JOBS, 12))
+
+
 def check(ctx, only=None):
     gate = proof_gate(ctx)
     if not ctx.build_tree():
@@ -2126,6 +2193,23 @@ def check(ctx, only=None):
         if bad_:
             oracle_fail.append(("fuzz", {"what": bad_, "fuzz": [{"pkgs": s["pkgs"], "raw_config_hex": s["raw_config"].hex()}],
                                          "config": json.loads(s["raw_config"].decode()), "mutations": s.get("fuzz"), "output_tail": r["tail"][-800:]}))
+    # ---------------- 4. boolean environment variables ----------------
+    if only is not None:
+        ecases = [(x["key"], x["value"]) for x in only.get("env", [])]
+    else:
+        ecases = gen_env_cases(ctx.rng, 300 if big else 16)
+    eres = run_env(ctx, ecases, 200000) if ecases else []
+    for (key, val), r in zip(ecases, eres):
+        hist["env-bool"] = hist.get("env-bool", 0) + 1
+        bad_ = []
+        if r["cls"] == "Panic":
+            bad_.append("mockery terminated by an unrecovered panic on MOCKERY_%s=%r: %s" % (key, val, (re.findall(r"panic: [^\n]*", r["tail"]) or [""])[0]))
+        elif r["cls"] == "ExitErr" and not r["diag"]:
+            bad_.append("non-zero exit without a diagnostic on MOCKERY_%s=%r" % (key, val))
+        if bad_:
+            oracle_fail.append(("env", {"what": bad_, "env": [{"key": key, "value": val}], "output_tail": r["tail"][-600:]}))
+    eterms = ["{| e_val := %s; e_exit := %s |}" % (coq_bytes(v.encode()), r["cls"]) for (k, v), r in zip(ecases, eres)]
+    ebad, eerrs = coq_mismatches(ctx, HMOD, eterms, check="emismatches") if eterms else ([], [])
     terms, tidx = [], []
     known = load_known("C09")
     for res in results:
@@ -2168,7 +2252,11 @@ def check(ctx, only=None):
     # ---------------- verdicts ----------------
     seen_cat, picked, fail_cats = set(), [], {}
     for kind, rp in oracle_fail:                      # one replay per distinct symptom
-        cat = kind + "|" + re.sub(r"[0-9a-f]{8,}|/tmp/\S+|\d+", "#", str(rp["what"][0]))[:90] + "|" + ",".join(
+        if kind == "env":
+            cat_src = str(rp["what"][0]).split(" on MOCKERY_")[0]
+        else:
+            cat_src = str(rp["what"][0])
+        cat = kind + "|" + re.sub(r"[0-9a-f]{8,}|/tmp/\S+|\d+", "#", cat_src)[:90] + "|" + ",".join(
             sorted(t.split(":")[-1] if t.startswith("unusual") else t.split(":")[0] for t in rp.get("readable", {}).get("tags", [])))
         fail_cats[cat] = fail_cats.get(cat, 0) + 1
         if cat not in seen_cat:
@@ -2182,7 +2270,7 @@ def check(ctx, only=None):
         ctx.violation(path)
     if not gate["ok"] and not oracle_fail:
         ctx.violation(gate["replay"], nofail=True)
-    if (bad or errs2 or gbad or gerrs) and not oracle_fail:
+    if (bad or errs2 or gbad or gerrs or ebad or eerrs) and not oracle_fail:
         ex = []
         for i in bad[:3]:
             res = tidx[i]
@@ -2195,7 +2283,9 @@ def check(ctx, only=None):
         rp = ctx.write_replay("correspondence", {
             "what": "the model (Cfg/Pipeline.v, Cfg/GoMod.v) and the implementation disagree; the oracle found no input on which the property itself fails",
             "obligation": "correspondence Harness/C09.v check_case (exit class + final node of every path, for some map order) / gcheck (findPkgPath answer)",
-            "mismatching_runs": len(bad), "mismatching_gomod_texts": len(gbad), "coq_errors": (errs2 + gerrs)[:3],
+            "mismatching_runs": len(bad), "mismatching_gomod_texts": len(gbad), "coq_errors": (errs2 + gerrs + eerrs)[:3],
+            "mismatching_env_values": [{"key": ecases[i][0], "value": ecases[i][1], "observed": eres[i]["cls"]} for i in ebad[:6]],
+            "env": [{"key": ecases[i][0], "value": ecases[i][1]} for i in ebad[:6]],
             "scenarios": [s for e in ex for s in e["scenarios"]], "gomod": [g for e in gex for g in e["gomod"]],
             "examples": ex, "gomod_examples": gex})
         ctx.violation(rp, nofail=True)
@@ -2212,4 +2302,4 @@ def check(ctx, only=None):
 
 def replay(ctx, path):
     d = json.loads(open(path).read())
-    check(ctx, only={"scenarios": d.get("scenarios", []), "gomod": d.get("gomod", []), "fuzz": d.get("fuzz", [])})
+    check(ctx, only={"scenarios": d.get("scenarios", []), "gomod": d.get("gomod", []), "fuzz": d.get("fuzz", []), "env": d.get("env", [])})
